@@ -84,6 +84,38 @@ def run(case, tape=None):
             phi = pipe.phi
             phi.getAllData()[:] = cm.local(PHI, phi.getLayout('mode_solve'))
             phi.setLayout('v_parallel_1d')
+            # step() stores its result in the caller's array whatever its memory layout (a column of a 2-D
+            # array, a slice of a larger buffer): same values as for a contiguous copy.  An explicit refusal of
+            # such an array is acceptable (compiled kernels may), a silent no-op is not.
+            rs = np.random.RandomState(case['fseed'] % (2 ** 31))
+            for trial in range(3):
+                line = rs.standard_normal(npts[3])
+                cval = float(rs.standard_normal() * 10.0 ** rs.uniform(-2, 1))
+                rval = float(f.eta_grid[0][rs.randint(npts[0])])
+                plain = np.array(line, copy=True)
+                pipe.vParAdv.step(plain, dt, cval, rval)
+                if trial == 0:
+                    holder = np.full((npts[3], 3), 7.0)
+                    view = holder[:, 1]
+                elif trial == 1:
+                    holder = np.full(2 * npts[3] + 1, 7.0)
+                    view = holder[1::2]
+                else:
+                    holder = np.full(npts[3] + 4, 7.0)
+                    view = holder[2:-2]
+                view[:] = line
+                try:
+                    pipe.vParAdv.step(view, dt, cval, rval)
+                except (TypeError, ValueError, AssertionError, NotImplementedError):
+                    if rank == 0:
+                        simworld.current()[0].probe('strided_line_refused')
+                    continue
+                if not cm.bits_equal(np.array(view, copy=True), plain):
+                    raise OracleFail('advection-differs', dict(step='step() on a non-contiguous line', rank=rank,
+                                                               layout=['column', 'every second', 'inner slice'][trial],
+                                                               unchanged=bool(np.array_equal(view, line))))
+                if trial == 0 and not (np.all(holder[:, 0] == 7.0) and np.all(holder[:, 2] == 7.0)):
+                    raise OracleFail('advection-differs', dict(step='step() wrote outside its line', rank=rank))
             pipe.parGradVals[:] = np.nan
             pipe.vParAdv.gridStep(f, phi, pipe.parGrad, pipe.parGradVals, dt)
             one = phys.block(f)
